@@ -23,6 +23,7 @@ import (
 //     advance RCV.NXT by one and then call send() with the ACK bit;
 //   - while the FIN bit is known set RCV.NXT is never assigned a value that drops the segment's payload.
 func c14FinAnswered(c *Ctx, htcp, send *ssa.Function) {
+	c.Explanation += " (3) answers a FIN: abstract interpretation of handleTCP over the finite set of connection states (mutex held, no foreign writer, flag tests resolved for FIN|ACK) – from ESTABLISHED, FIN-WAIT-1 and FIN-WAIT-2 every path advances RCV.NXT by one and then sends with the ACK bit; under FIN RCV.NXT is never rewound over the payload."
 	p := c.P
 	const rule = "fin-answered"
 	stT := p.Type(canaryRel, "State")
@@ -223,8 +224,8 @@ func c14FinAnswered(c *Ctx, htcp, send *ssa.Function) {
 			if f := x.Call.StaticCallee(); f != nil && f.Name() == "HasFlag" && len(x.Call.Args) == 2 {
 				return ConstInt(x.Call.Args[1])
 			}
-		case *ssa.BinOp: // hdr.Ctrl & X == X
-			if x.Op != token.EQL {
+		case *ssa.BinOp: // hdr.Ctrl & X == X   (X is a single bit, so  != X, == 0, != 0 forms are read as well)
+			if x.Op != token.EQL && x.Op != token.NEQ {
 				return 0, false
 			}
 			and, ok := x.X.(*ssa.BinOp)
@@ -233,11 +234,24 @@ func c14FinAnswered(c *Ctx, htcp, send *ssa.Function) {
 				return 0, false
 			}
 			k2, ok2 := ConstInt(and.Y)
-			if ok2 && k2 == k1 && isField(and.X, "Header", "Ctrl") {
-				return k1, true
+			if ok2 && (k2 == k1 || k1 == 0) && k2 > 0 && k2&(k2-1) == 0 && isField(and.X, "Header", "Ctrl") {
+				return k2, true
 			}
 		}
 		return 0, false
+	}
+	// flagPol: does the condition value being true mean "flag set"?
+	flagPol := func(v ssa.Value) bool {
+		x, ok := v.(*ssa.BinOp)
+		if !ok {
+			return true
+		}
+		k1, _ := ConstInt(x.Y)
+		set := x.Op == token.EQL
+		if k1 == 0 {
+			set = !set
+		}
+		return set
 	}
 	// the segment under consideration: FIN and ACK set, SYN and RST clear, anything else open
 	assumed := map[int64]bool{1: true, 16: true, 2: false, 4: false}
@@ -245,7 +259,7 @@ func c14FinAnswered(c *Ctx, htcp, send *ssa.Function) {
 		atom, pol := condAtom(v)
 		if fl, ok := flagOf(atom); ok {
 			if a, ok := assumed[fl]; ok {
-				return true, a == pol
+				return true, a == (pol == flagPol(atom))
 			}
 		}
 		return false, false
@@ -344,9 +358,9 @@ func c14FinAnswered(c *Ctx, htcp, send *ssa.Function) {
 	// while FIN is known set, RCV.NXT is not rewound over the segment's payload
 	for _, iff := range finTests {
 		fb := iff.Block()
-		_, pol := condAtom(iff.Cond)
+		atom, pol := condAtom(iff.Cond)
 		tIdx := 0
-		if !pol {
+		if pol != flagPol(atom) {
 			tIdx = 1
 		}
 		for _, b := range htcp.Blocks {
